@@ -324,6 +324,8 @@ func c19Run(e *core.Env) {
 	dsts := dstStates()
 	ctxs := Contexts([]uint32{1, 2, 3, 5}, true, []apd.Rounder{apd.RoundHalfEven, apd.RoundUp, apd.RoundDown})
 	ctxs = append(ctxs, MkCtx(0, -100000, 100000, apd.RoundHalfUp, 0))
+	// exponent ranges that do not contain exponent 0 (MaxExponent < 0, MinExponent > 0): a zero still reduces to 0E+0
+	ctxs = append(ctxs, MkCtx(3, -9, -3, apd.RoundHalfEven, 0), MkCtx(2, -20, -1, apd.RoundUp, 0), MkCtx(5, 2, 9, apd.RoundHalfEven, 0))
 	for _, p := range []uint32{19, 20, 38, 39} {
 		// the coefficient kept by Context.Reduce crosses the 64- and 128-bit boundaries
 		ctxs = append(ctxs, MkCtx(p, -6143, 6144, apd.RoundHalfEven, 0), MkCtx(p, -6143, 6144, apd.RoundUp, 0))
@@ -395,7 +397,7 @@ func init() {
 		Rule:  "NumDigits on every integer of the dense range and on every bit-length / power-of-ten boundary (both signs) against the length of the decimal text; Decimal.Reduce and Context.Reduce on m*10^t for every m, t of the family x destination pre-states x contexts against value equality, no trailing zero, exact zero count; non-trivial = boundary value or an operand with trailing zeros / rounding",
 		Bounds: func(tier string) string {
 			if tier == "thorough" {
-				return "NumDigits: all |b| < 2^22; bit lengths 1..4096 (2^(n-1), 2^n-1, 10^k-1,10^k,10^k+1 inside); 10^k+-{0,1} for every k <= 20000 and k in {99999,100000}; Reduce: m*10^t, m < 1000 not divisible by 10 + m around 2^64/10^t, t = 0..45, 4 exponents, both signs, zeros of 8 exponents x 7 destination pre-states x (p in {1,2,3,5} x 11 ranges x 3 modes + precision 0 + p in {19,20,38,39} x 2 modes)"
+				return "NumDigits: all |b| < 2^22; bit lengths 1..4096 (2^(n-1), 2^n-1, 10^k-1,10^k,10^k+1 inside); 10^k+-{0,1} for every k <= 20000 and k in {99999,100000}; Reduce: m*10^t, m < 1000 not divisible by 10 + m around 2^64/10^t, t = 0..45, 4 exponents, both signs, zeros of 8 exponents x 7 destination pre-states x (p in {1,2,3,5} x 11 ranges x 3 modes + precision 0 + p in {19,20,38,39} x 2 modes + 3 ranges without exponent 0)"
 			}
 			return "NumDigits: all |b| < 2^20; bit lengths 1..700; 10^k+-{0,1} for every k <= 6500 (21593 bits) and k = 20000; Reduce: every third m*10^t (m < 1000, t = 0..45) + 2^64/10^t edges x 7 destination pre-states x contexts (p in {1,2,3,5}, precision 0, p in {19,20,38,39})"
 		},
